@@ -82,51 +82,56 @@ Definition with_bnd (f : fobj) (l : loc) := {| o_sig := o_sig f; o_ren := o_ren 
 Definition with_ms (f : fobj) (l : loc) := {| o_sig := o_sig f; o_ren := o_ren f; o_dfl := o_dfl f; o_bnd := o_bnd f; o_ms := l; o_inner := o_inner f |}.
 
 (* ---------- copies ---------- *)
-(* PipeFunc.copy / NestedPipeFunc.copy; Pipeline(functions) = a new list + add (= copy + append) of each *)
-Fixpoint copy_func (fuel : nat) (h : heap) (lf : loc) {struct fuel} : option (heap * loc) :=
+(* PipeFunc.copy / NestedPipeFunc.copy.  `clear_ms`: the copy is made for the inner pipeline of a NestedPipeFunc,
+   whose __init__ sets `f.mapspec = None` on every inner function right after building them.
+   A new Pipeline object is allocated with its final function list (its list is only appended to while it is
+   being built, nobody else holds it yet). *)
+Definition copy_all (cp : heap -> loc -> option (heap * loc)) (h : heap) (fs : list loc) : option (heap * list loc) :=
+  ofold (fun st g => olet r <- cp (fst st) g; Some (fst r, snd st ++ [snd r])) fs (h, []).
+
+Fixpoint copy_func (fuel : nat) (clear_ms : bool) (h : heap) (lf : loc) {struct fuel} : option (heap * loc) :=
   match fuel with
   | O => None
   | S n =>
       olet f <- get_func h lf;
       match o_inner f with
-      | None => new_func h (o_sig f) (o_ren f) (o_dfl f) (o_bnd f) (o_ms f) None
+      | None =>
+          if clear_ms then
+            let '(h1, lm) := alloc h (CSpec None) in
+            new_func h1 (o_sig f) (o_ren f) (o_dfl f) (o_bnd f) lm None
+          else new_func h (o_sig f) (o_ren f) (o_dfl f) (o_bnd f) (o_ms f) None
       | Some lp =>
           (* NestedPipeFunc(pipefuncs=self.pipeline.functions, output_name=.., renames=self._renames, mapspec=..) *)
           olet fs <- get_pipe h lp;
           (* functions = [f.copy(resources=..) for f in pipefuncs] *)
-          olet c1 <- ofold (fun st g => olet r <- copy_func n (fst st) g; Some (fst r, snd st ++ [snd r])) fs (h, []);
-          (* self.pipeline = Pipeline(functions): every function is copied once more by Pipeline.add *)
-          let '(h1, lp') := alloc (fst c1) (CPipe []) in
-          olet c2 <- ofold (fun hh g => olet r <- copy_func n hh g;
-                                        olet cur <- get_pipe (fst r) lp';
-                                        Some (write (fst r) lp' (CPipe (cur ++ [snd r])))) (snd c1) h1;
-          (* for f in self.pipeline.functions: f.mapspec = None *)
-          olet fs2 <- get_pipe c2 lp';
-          olet c3 <- ofold (fun hh g => olet fo <- get_func hh g;
-                                        let '(h', lm) := alloc hh (CSpec None) in
-                                        Some (set_func h' g (with_ms fo lm))) fs2 c2;
+          olet c1 <- copy_all (copy_func n false) h fs;
+          (* self.pipeline = Pipeline(functions): every function is copied once more by Pipeline.add;
+             for f in self.pipeline.functions: f.mapspec = None *)
+          olet c2 <- copy_all (copy_func n true) (fst c1) (snd c1);
+          let '(h2, lp') := alloc (fst c2) (CPipe (snd c2)) in
           (* _renames = renames or {} ; _defaults / _bound = self._defaults.copy() / self._bound.copy() *)
-          olet hr <- or_empty c3 (o_ren f);
+          olet hr <- or_empty h2 (o_ren f);
           olet d <- get_dict (fst hr) (o_dfl f);
           let '(h4, ld) := alloc (fst hr) (CDict d) in
           olet b <- get_dict h4 (o_bnd f);
           let '(h5, lb) := alloc h4 (CDict b) in
-          Some (alloc h5 (CFunc {| o_sig := o_sig f; o_ren := snd hr; o_dfl := ld; o_bnd := lb; o_ms := o_ms f;
-                                   o_inner := Some lp' |}))
+          olet lm <- (if clear_ms then Some (alloc h5 (CSpec None)) else Some (h5, o_ms f));
+          Some (alloc (fst lm) (CFunc {| o_sig := o_sig f; o_ren := snd hr; o_dfl := ld; o_bnd := lb; o_ms := snd lm;
+                                         o_inner := Some lp' |}))
       end
   end.
 
 Definition copy_fuel : nat := 6.
-(* Pipeline.add(f): copy, append to the pipeline's own list *)
+Definition copy1 (h : heap) (lf : loc) : option (heap * loc) := copy_func copy_fuel false h lf.
+(* Pipeline.add(f): copy, append to the pipeline's own list (in place) *)
 Definition pipeline_add (h : heap) (lp lf : loc) : option heap :=
-  olet r <- copy_func copy_fuel h lf;
+  olet r <- copy1 h lf;
   olet cur <- get_pipe (fst r) lp;
   Some (write (fst r) lp (CPipe (cur ++ [snd r]))).
-(* Pipeline(functions) *)
+(* Pipeline(functions): a new object whose list holds a copy of every function *)
 Definition new_pipeline (h : heap) (fs : list loc) : option (heap * loc) :=
-  let '(h1, lp) := alloc h (CPipe []) in
-  olet h2 <- ofold (fun hh g => pipeline_add hh lp g) fs h1;
-  Some (h2, lp).
+  olet c <- copy_all copy1 h fs;
+  Some (alloc (fst c) (CPipe (snd c))).
 (* Pipeline.copy() *)
 Definition pipeline_copy (h : heap) (lp : loc) : option (heap * loc) :=
   olet fs <- get_pipe h lp; new_pipeline h fs.
@@ -134,8 +139,7 @@ Definition pipeline_copy (h : heap) (lp : loc) : option (heap * loc) :=
 Definition pipeline_join (h : heap) (lp lq : loc) : option (heap * loc) :=
   olet fp <- get_pipe h lp;
   olet fq <- get_pipe h lq;
-  olet c <- ofold (fun st g => olet r <- copy_func copy_fuel (fst st) g; Some (fst r, snd st ++ [snd r]))
-                  (fp ++ fq) (h, []);
+  olet c <- copy_all copy1 h (fp ++ fq);
   new_pipeline (fst c) (snd c).
 
 (* cloudpickle round trip: every object is rebuilt *)
@@ -327,25 +331,23 @@ Section WithSpecRen.
     olet fs <- get_pipe h lp;
     Some (write h lp (CPipe (filter (fun x => negb (x =? g)) fs))).
 
-  (* NestedPipeFunc(pipefuncs, output_name): copies (comprehension), Pipeline(copies) (copies again), fresh dicts *)
+  (* NestedPipeFunc(pipefuncs, output_name): copies (comprehension), Pipeline(copies) (copies again, MapSpecs
+     cleared), fresh dicts *)
   Definition new_nested (h : heap) (fs : list loc) (new_out : option (list str)) : option (heap * loc) :=
     olet nodes <- ofold (fun acc g => olet x <- reify_func copy_fuel h g; Some (acc ++ [x])) fs [];
     match mk_nested nodes new_out with
     | Err _ => None
     | Ok nd =>
-        olet c1 <- ofold (fun st g => olet r <- copy_func copy_fuel (fst st) g; Some (fst r, snd st ++ [snd r])) fs (h, []);
-        olet pi <- new_pipeline (fst c1) (snd c1);
-        olet fs2 <- get_pipe (fst pi) (snd pi);
-        olet c3 <- ofold (fun hh g => olet fo <- get_func hh g;
-                                      let '(h', lm) := alloc hh (CSpec None) in
-                                      Some (set_func h' g (with_ms fo lm))) fs2 (fst pi);
-        let '(h4, lr) := alloc c3 (CDict []) in
+        olet c1 <- copy_all copy1 h fs;
+        olet c2 <- copy_all (copy_func copy_fuel true) (fst c1) (snd c1);
+        let '(h3, lp') := alloc (fst c2) (CPipe (snd c2)) in
+        let '(h4, lr) := alloc h3 (CDict []) in
         let '(h5, ld) := alloc h4 (CDict (dflt (nf nd))) in
         let '(h6, lb) := alloc h5 (CDict []) in
         let '(h7, lm) := alloc h6 (CSpec None) in
         Some (alloc h7 (CFunc {| o_sig := {| g_name := fname (nf nd); g_outs := noorig nd; g_params := pnames (nf nd);
                                              g_sigd := []; g_cached := cached (nf nd) |};
-                                 o_ren := lr; o_dfl := ld; o_bnd := lb; o_ms := lm; o_inner := Some (snd pi) |}))
+                                 o_ren := lr; o_dfl := ld; o_bnd := lb; o_ms := lm; o_inner := Some lp' |}))
     end.
   (* Pipeline.nest_funcs(names, new_out): drop every function, build the nested function, add (= copy) it *)
   Definition pipeline_nest (h : heap) (lp : loc) (names : list str) (new_out : option (list str)) : option heap :=
@@ -378,7 +380,7 @@ Section WithSpecRen.
     | Some f =>
         let comp := component (funcs p) f in
         let sel := map snd (filter (fun nl => mem_str (nid (fst nl)) comp) (combine p fs)) in
-        olet c <- ofold (fun st g => olet r <- copy_func copy_fuel (fst st) g; Some (fst r, snd st ++ [snd r])) sel (h, []);
+        olet c <- copy_all copy1 h sel;
         new_pipeline (fst c) (snd c)
     end.
 
